@@ -9,7 +9,7 @@ satisfiable by a concrete (toy, symbolic) instance, so no theorem below is vacuo
 | clause of the statement | theorem(s) on the model | rest |
 |---|---|---|
 | a read returns the plaintext of a version a write-cap holder published, or an error, never other bytes | `accepted_version_published` (one share: prefix + blocks are a published version's), `installed_key_genuine`, `signed_root_never_reset`, `accepted_blocks_hash_to_signed_root`, `retrieve_validates_only_published_blocks` (a whole Retrieve, any sequence of rejected shares); `reset_variant_counterexample` shows the invariant is load-bearing | `decrypt_salt_is_signed` (the IV/salt handed to the decryptor is the signed one; `fresh_reader_counterexample` = seed C10-e); decoding k validated block sets to the plaintext is C36/C09; the servermap's per-update signature cache: `map_update_enters_only_verified_prefixes` (`coarse_cache_key_counterexample` = seed C10-a) |
-| … for any tampering: flipped bytes, forged signatures or keys, mixed versions, another file's shares | same theorems (the adversary supplies every field of every share; `World.unforgeable`, `fp_inj`, `chain_sound`, `bht_inj` are the hypotheses); `fieldDecision_table` for single-field alterations | which bytes of the two hash-chain fields a read consults: **correspondence/monitor only** |
+| … for any tampering: flipped bytes, forged signatures or keys, mixed versions, another file's shares | same theorems (the adversary supplies every field of every share; `World.unforgeable`, `fp_inj`, `chain_sound`, `bht_inj` are the hypotheses); `fieldDecision_table` for single-field alterations | `version_identity_signed_except_offsets` (which fields the signature covers, which are in the version identity, what a map update does with a share altered in one field; the offsets table is the one unsigned component of the identity = the open finding); which bytes of the two hash-chain fields a read consults: **correspondence/monitor only** |
 | if at least k intact shares of the newest published version are reachable, the read succeeds | `intact_share_accepted` (an intact share is accepted); `retrieve_succeeds_with_k_intact_partial` (the Retrieve loop ends with k good shares — guard: only the bad share is dropped, or one share per server); `readOnce_succeeds_partial` (one read, given `best` = that version). `drop_server_counterexample` = the code before /repo 280b4a6 (repaired; the harness compares the real loop with the `dropSrv = false` variant now); **still not true of the code as it is**: `offset_table_counterexample` (open finding, reproduced by the monitor) | `best_is_maximal_recoverable` (`best` = the largest recoverable verinfo) and `read_succeeds_with_k_intact_newest_partial` (first survey + one retry on the complete map) -- guard: no recoverable verinfo sorts above the newest published version's, which the open offset-table finding breaks; which servers the partial MODE_READ survey asks: **correspondence only** (`rd`); one share has one identity whichever proxy surveyed it: `canonical_offsets_same_identity` (`insertion_order_offsets_counterexample` = the code before 80fa722) |
 | holders of only a read-cap or verify-cap, and storage servers, cannot create a version that readers accept | `readcap_cannot_publish` (Dolev–Yao closure: no signature on an unpublished prefix, nor the signing or write key, is derivable) with `accepted_version_published` | computational soundness of RSA/SHA-256d: assumed |
 | SDMF and MDMF | the model is format-independent (salt inside the prefix for SDMF, hashed with the blocks for MDMF: `Prims.bhtRoot`) | both formats in every harness family |
@@ -165,6 +165,26 @@ forged ones keep being rejected afterwards -/
 example : (Toy.run (some 0) [.offer 0 1, .damaged 1 0 7, .offer 2 0, .offer 3 1, .fail 4, .offer 5 0]).1
     = [false, false, true, false, false, true] := by decide
 example : (Toy.run (some 0) [.offer 0 1, .damaged 1 0 7, .offer 2 0, .offer 3 1]).2.tree = some (.fam 0) := by decide
+
+/-! ### what the signature covers -/
+
+/-- **the version identity is signed except for the offsets table**: every component of verinfo is
+inside the signed prefix, with exactly one exception, the offsets table -- and a share altered in one
+field gets a version identity of its own in exactly that case (every other alteration is rejected by
+the map update or leaves the share under the identity of the intact ones, to be judged by Retrieve's
+hash checks).  The exception is the open finding (`offset_table_counterexample`). -/
+theorem version_identity_signed_except_offsets (f : HField) :
+    (inVerinfo f = true → signedField f = true ∨ f = .offsets) ∧
+    (inVerinfo f = true ∧ signedField f = false ↔ f = .offsets) ∧
+    (mapOutcome f = .newIdentity ↔ f = .offsets) ∧
+    (signedField f = true → mapOutcome f = .rejected) := by
+  cases f <;> simp [inVerinfo, signedField, mapOutcome]
+
+theorem hfield_all_complete (f : HField) : f ∈ HField.all := by
+  cases f <;> simp [HField.all]
+
+example : (HField.all.filter (fun f => inVerinfo f && !signedField f)) = [.offsets] ∧
+    (HField.all.filter signedField).length = 7 ∧ mapOutcome .shareData = .sameIdentity := by decide
 
 /-! ### the map update's signature cache -/
 
